@@ -384,6 +384,9 @@ pub fn run_legs(ctx: &Ctx) {
     let outs = vcommon::par_map(&points, vcommon::ncpu(), |_, (hi, k)| run_point(&ctx.root, *hi, *k));
     let mut calls = 0;
     let mut nontrivial = 0;
+    // a history whose *unkilled* run already disagrees with the model shows a defect that has
+    // nothing to do with crashes: it is reported once (kill=none) and not again per kill point
+    let broken: Vec<usize> = points.iter().zip(outs.iter()).filter(|((_, k), o)| *k == Kill::Clean && o.problem.is_some()).map(|((hi, _), _)| *hi).collect();
     for ((hi, k), o) in points.iter().zip(outs.iter()) {
         calls += o.calls;
         if o.acks >= 1 {
@@ -393,7 +396,9 @@ pub fn run_legs(ctx: &Ctx) {
             vcommon::machinery_failure(&format!("crash leg (history {}, {:?}): {}", hi, k, m));
         }
         if let Some((sig, what)) = &o.problem {
-            ctx.violation("rocks.crash.op_boundary", sig, detail(*hi, *k, what, o.acks));
+            if *k == Kill::Clean || !broken.contains(hi) {
+                ctx.violation("rocks.crash.op_boundary", sig, detail(*hi, *k, what, o.acks));
+            }
         }
     }
     ctx.add_leg(Leg {
@@ -413,7 +418,7 @@ pub fn run_legs(ctx: &Ctx) {
 
     // ---- (b) write-family system calls
     let t0 = Instant::now();
-    let which: Vec<usize> = (0..hs.len()).collect();
+    let which: Vec<usize> = (0..hs.len()).filter(|h| !broken.contains(h)).collect();
     match strace_works(&ctx.root) {
         Err(why) => {
             ctx.assume(&format!("system-call kill points SKIPPED: strace/ptrace is not usable here ({})", why));
@@ -476,7 +481,7 @@ pub fn run_legs(ctx: &Ctx) {
                 counts.push(json!({"history": hs[hi].0, "first_unkilled_N": unkilled_at}));
             }
             if samples.is_empty() {
-                samples.push(json!({"history": hs[which[0]].0, "kill": "SIGKILL at entry of the N-th write-family system call, N = 1.."}));
+                samples.push(json!({"history": hs[which.first().copied().unwrap_or(0)].0, "kill": "SIGKILL at entry of the N-th write-family system call, N = 1.."}));
             }
             ctx.add_leg(Leg {
                 name: "rocks.crash.syscall".into(),
@@ -488,7 +493,7 @@ pub fn run_legs(ctx: &Ctx) {
                 rule: "every N from 1 to the first N at which the writer is no longer killed; non-trivial = killed with at least one acknowledged call".into(),
                 samples,
                 exhaustive,
-                bounds: json!({"syscalls": SYSCALLS, "histories": counts, "kill_points_by_call_in_flight": in_flight_kinds,
+                bounds: json!({"syscalls": SYSCALLS, "histories": counts, "histories_skipped_because_unkilled_run_fails": broken, "kill_points_by_call_in_flight": in_flight_kinds,
                                "note": "strace counts `when=N` per traced thread; the writer thread issues nearly all calls, N runs until a run completes unkilled",
                                "check": "reopen in the parent: acknowledged ids unchanged, ids pairwise distinct incl. 3 fresh names, data equals the model after k or k+1 calls (k acknowledged)"}),
                 wall_s: t0.elapsed().as_secs_f64(),
